@@ -122,7 +122,6 @@ TStep == /\ l <= Len(Tr.events)
                                   \* directly against the reference relation
                                   /\ (InverseOf(pre) /\ obs = nom) =>
                                         (InverseOf(obs) /\ AbsOf(obs) = RefNext(e, AbsOf(pre)))
-                                  /\ (viaDev => PrintT(<<"AT", tid, l, 1>>))
                /\ SetImpl(obs) /\ SetAbs(AbsOf(obs))
                \* the source of a copy is independent of the copy: nothing done later changes it
                /\ src' = IF e.op \in CopyOps /\ e.exc = ""
@@ -131,6 +130,9 @@ TStep == /\ l <= Len(Tr.events)
                /\ src'.live => /\ NoDupKeys(e.sdb) /\ NoDupKeys(e.srdb)
                                /\ ObsFn(e.sdb) = src'.db /\ ObsFn(e.srdb) = src'.rdb
                /\ sabs' = AbsOf(src') /\ al' = al
+               \* deviation marker, printed only for a step that is explained completely
+               /\ ((~Unspecified(e, pre) /\ e.op # "q" /\ DevAllowed /\ obs # Nominal(e, pre))
+                      => PrintT(<<"AT", tid, l, 1>>))
          /\ l' = l + 1 /\ UNCHANGED tid
          /\ (Diag => PrintT(<<"AT", tid, l, 0>>))
          /\ (l' = Len(Tr.events) + 1 => PrintT(<<"ACCEPTED", tid>>))
